@@ -305,7 +305,7 @@ int main(int argc, char **argv) {
       if (!strcmp(k, "reg")) { int fd = open(p, O_CREAT | O_WRONLY | O_TRUNC, 0644); if (fd < 0) rc = -1; else { if (strcmp(tg, "-")) write(fd, tg, strlen(tg)); close(fd); } }
       else if (!strcmp(k, "regx")) { int fd = open(p, O_CREAT | O_EXCL | O_WRONLY, 0644); if (fd < 0) rc = -1; else { if (strcmp(tg, "-")) write(fd, tg, strlen(tg)); close(fd); } }
       else if (!strcmp(k, "dir")) rc = mkdir(p, 0755);
-      else if (!strcmp(k, "fifo")) rc = mkfifo(p, 0666);
+      else if (!strcmp(k, "fifo")) { rc = mkfifo(p, 0666); if (rc != 0 && errno == EEXIST) rc = 0; }
       else if (!strcmp(k, "sym")) rc = symlink(tg, p);
       else if (!strcmp(k, "hard")) rc = link(tg, p);
       else if (!strcmp(k, "chmod")) rc = chmod(p, strtol(tg, NULL, 8));
